@@ -274,8 +274,8 @@ theorem partial_iff (pm : List Path) (rules : List Rule) (o : Opts)
     rule on `user-id` that is not — hypotheses hold, the left side is inhabited -/
 example :
     let pm := ["user".toList, "user-id".toList, "user.name".toList]
-    let rules : List Rule := [⟨"user.name".toList, true, [⟨"min".toList, []⟩], false, true, some ["min".toList]⟩,
-                             ⟨"user-id".toList, true, [], false, true, some []⟩]
+    let rules : List Rule := [⟨"user.name".toList, true, [⟨"min".toList, []⟩], false, false, true, some ["min".toList]⟩,
+                             ⟨"user-id".toList, true, [], false, false, true, some []⟩]
     let o : Opts := ⟨0, 0, []⟩
     truncOf (validatePartial pm rules o) = false ∧ (leafPaths pm).length ≤ maxLeaves o ∧
     Expected pm rules "user.name".toList "tag.min".toList ∧ ¬ Expected pm rules "user-id".toList "tag.min".toList := by
@@ -729,8 +729,8 @@ theorem errorsOK_model_runall (iface : List FieldErr) (errs : List (Path × Viol
 theorem element_rule_asis_witness :
     let pm := ["tags".toList, "tags.0".toList, "tags.1".toList]
     let leaves := ["tags.0".toList, "tags.1".toList]
-    let rules : List Rule := [⟨"tags.0".toList, false, [], false, true, some ["min".toList]⟩,
-                             ⟨"tags.1".toList, false, [], false, true, some ["min".toList]⟩]
+    let rules : List Rule := [⟨"tags.0".toList, false, [], false, false, true, some ["min".toList]⟩,
+                             ⟨"tags.1".toList, false, [], false, false, true, some ["min".toList]⟩]
     let o : Opts := ⟨0, 0, []⟩
     (partialLoopAsIs rules o leaves []).map (fun r => r.fields.map (·.path)) = some leaves ∧
     (partialLoop mkErr (ownTags rules) o leaves []).fields = [] ∧
@@ -740,13 +740,20 @@ theorem element_rule_asis_witness :
 
 /-- K05c: with a `dive` tag the container's rule panicked on the element (`ctags = none`) -/
 theorem element_rule_asis_panics :
-    validatePartialAsIs (fun _ => ["dive.0".toList]) [] [⟨"dive.0".toList, true, [], false, true, none⟩] ⟨0, 0, []⟩ = none := by
+    validatePartialAsIs (fun _ => ["dive.0".toList]) [] [⟨"dive.0".toList, true, [], false, false, true, none⟩] ⟨0, 0, []⟩ = none := by
   decide
 
 /-- K05d: a struct field whose JSON name is a number did not resolve as shipped -/
 theorem numeric_field_asis_witness :
-    ownTagsNum [⟨"1".toList, true, [⟨"email".toList, ["1".toList]⟩], true, true, some ["email".toList]⟩] "1".toList = [] ∧
-    ownTags [⟨"1".toList, true, [⟨"email".toList, ["1".toList]⟩], true, true, some ["email".toList]⟩] "1".toList ≠ [] := by
+    ownTagsNum [⟨"1".toList, true, [⟨"email".toList, ["1".toList]⟩], true, false, true, some ["email".toList]⟩] "1".toList = [] ∧
+    ownTags [⟨"1".toList, true, [⟨"email".toList, ["1".toList]⟩], true, false, true, some ["email".toList]⟩] "1".toList ≠ [] := by
+  decide
+
+/-- K05h: a field promoted from an embedded struct (`type T struct { Base; … }`, body `{"id":"x"}`)
+    did not resolve as shipped, so a present leaf violating its rule was not reported -/
+theorem embedded_field_asis_witness :
+    ownTagsEmb [⟨"id".toList, true, [⟨"min".toList, ["id".toList]⟩], false, true, true, some ["min".toList]⟩] "id".toList = [] ∧
+    ownTags [⟨"id".toList, true, [⟨"min".toList, ["id".toList]⟩], false, true, true, some ["min".toList]⟩] "id".toList ≠ [] := by
   decide
 
 /-- K05f: as shipped only the error's own path was put to the redactor: an error on `kids` whose
